@@ -499,6 +499,41 @@ func c02Framing(c *Ctx) {
 				sepOK = true
 			}
 		}
+		// the type is line[1:idx] and the payload line[idx+1:], idx being the position of that ':'
+		for _, ci := range callsIn(f, idIs("bytes.IndexByte")) {
+			if !isConstIntV(':')(ci.Common().Args[1]) {
+				continue
+			}
+			idx, line := ci.Value(), ci.Common().Args[0]
+			var haveT, haveP bool
+			eachInstr(f, func(in ssa.Instruction) {
+				sl, ok := in.(*ssa.Slice)
+				if !ok || !sameValue(sl.X, line) {
+					return
+				}
+				usesIdx := func(v ssa.Value) bool {
+					if v == nil {
+						return false
+					}
+					if sameValue(v, idx) {
+						return true
+					}
+					b, isB := v.(*ssa.BinOp)
+					return isB && (sameValue(b.X, idx) || sameValue(b.Y, idx))
+				}
+				if !usesIdx(sl.Low) && !usesIdx(sl.High) {
+					return
+				}
+				isT := sl.Low != nil && isConstIntV(1)(sl.Low) && sl.High != nil && sameValue(sl.High, idx)
+				isP := false
+				if b, isB := sl.Low.(*ssa.BinOp); isB && sl.High == nil && b.Op == token.ADD {
+					isP = (sameValue(b.X, idx) && isConstIntV(1)(b.Y)) || (sameValue(b.Y, idx) && isConstIntV(1)(b.X))
+				}
+				haveT, haveP = haveT || isT, haveP || isP
+				c.check(isT || isP, name+"/cut-at-colon", c.ipos(sl), "the line is cut into type = line[1:idx] and payload = line[idx+1:]", "the line is cut at a position other than its first ':' (the type or the payload gains or loses a byte)")
+			})
+			c.check(haveT && haveP, name+"/type-and-payload", c.ipos(ci), "both the type and the payload are taken from the line", "the type or the payload is not cut from the line at its ':'")
+		}
 		c.check(sepOK, name+"/separator", c.pos(f.Pos()), "the type ends at the first ':' (what sendLine writes after the type)", "the reader looks for another separator than the ':' that sendLine writes after the type")
 	}
 	sl := c.fn("trzszTransfer.sendLine")
